@@ -241,17 +241,16 @@ PROPS = {
         'domains': [{'name': 'loc-cronhooks', 'quick': 400, 'thorough': 20000, 'thorough_shards': 10},
                     {'name': 'cron-sys', 'ok_is_spec': True, 'quick': 72, 'thorough': 1500, 'thorough_shards': 10}],
         'spec_ops': ['addfact', 'addrule', 'remfact', 'remrule', 'enablerule', 'clear', 'reload', 'process', 'setparents', 'scheduled-rule-runs-once-in-its-location'],
-        'corr': 'corr.cronsys (CorrCronSys.check_cronsys: one sys.System with the real built-in cron, 2-3 locations sharing rule ids, one-shot schedules of 200/400 ms added/removed/replaced before they are due; runs counted per location) and corr.loc (CorrLoc.check_loc) on the cronhooks profile: a recording cron.Cronner installed with cron.AddHooks on every state; per op the calls it received are compared with CronHooks.calls_* and the registry judge (registry = stored scheduled rules) runs after every op',
+        'corr': 'corr.cronsys (CorrCronSys.check_cronsys: one sys.System with the real built-in cron, 2-3 locations sharing rule ids, one-shot schedules of 200/400 ms added/removed/replaced before they are due, with restarts; runs counted per location) and corr.loc (CorrLoc.check_loc) on the cronhooks profile: a recording cron.Cronner installed with cron.AddHooks on every state; per op the calls it received are compared (as multisets) with the model\'s calls - CronHooks.calls_add / calls_Rem (with the cascade\'s and the purge\'s calls) / calls_clear / calls_load while nothing is expired, CronHooks.diff_calls for compound operations and around expired items - and the registry judge (registry built from the OBSERVED calls = stored scheduled rules) runs after every op, also when the calls differ from the model\'s',
         'rule': 'loc-cronhooks: histories of 20-45 ops on 1-2 locations (either state kind, persistent or ephemeral recording cron): AddRule with a schedule ("+1h", cron expressions, "!RFC3339") in 2 of 3 rule adds, '
                 'overwrites by rules with a when or by plain facts, deleteWith links to rule ids, RemRule/RemFact, Clear, reload (an ephemeral cron loses its jobs at reload), ticks delivered as trigger! events '
                 '(one-shot rules remove themselves); non-trivial = at least 3 distinct (op, outcome) kinds; distinct by hash of inputs',
-        'refuted': ['overwrite_keeps_job_counterexample (D28a)', 'cascade_keeps_job_counterexample (D28b)', 'expiry_keeps_job_counterexample (D28c)', 'linear_clear_keeps_jobs_counterexample (D28d)', 'linear_load_misses_jobs_counterexample (D28e)'],
-        'level_text': 'Coq theorems over the executable model of the cron hooks (cron/corehooks.go + where the two states invoke them): registry_exact_direct_ops (every history that avoids the known bypasses keeps the cron registry equal to the stored scheduled rules after every prefix; '
-                      'tight: cstep_exact_iff_direct shows a bypassing operation always breaks it), load_reregisters_indexed. The bypasses themselves are proved as counterexamples (D28a-e, known finding). Tick delivery and one-shot removal are covered by the C04 model (trigger! path, oneshot_removed_after_run). '
+        'refuted': [],
+        'level_text': 'Coq theorems over the executable model of the cron hooks (cron/corehooks.go + where the two states invoke them, after the repair of D28): registry_exact_all_ops - for EVERY history of adds, overwrites, removals with cascades, reads with expiry purges, Clear and restarts, on either kind of state, with a persistent or a non-persistent cron, the cron registry equals the stored scheduled rules after every operation, without any hypothesis on the operations; cstep_exact for one operation in an arbitrary state; the former bypasses as corollaries (overwrite_unschedules, removed_is_unscheduled, clear_unschedules_all, load_reregisters) and as computed examples (props/C15_open.v). Tick delivery and one-shot removal are covered by the C04 model (trigger! path, oneshot_removed_after_run). '
                       'Tie to the code: a recording Cronner behind cron.AddHooks on real states; calls compared op by op with the model, registry judged after every op.',
-        'level_note': 'Partial: that the cron SERVICE fires a registered job when due is C16; here the claim is the registry. D17 (the built-in InternalCron was keyed by rule id only, so equal ids in two locations replaced each other\'s job) was found by reading, confirmed on the real code, repaired in /repo (fix: commit) and is guarded by the cron-sys domain. Expiry of scheduled rules is not judged (timing).',
-        'technique': 'Coq invariant proof over instrumented operation histories with an exact characterisation of the bypassing operations + differential replay with a recording cron service',
-        'assumptions': ['sequential histories', 'the cron service accepts every schedule string (the recording Cronner does)'],
+        'level_note': 'Partial: that the cron SERVICE fires a registered job when due is C16; here the claim is the registry. D28 (the hooks were bypassed by overwrites, cascades, expiry, LinearState.Clear and LinearState.Load) was found by this check, confirmed on the real code and repaired in /repo (fix: commit); a registry mismatch is now a plain specification failure. D17 (the built-in InternalCron was keyed by rule id only, so equal ids in two locations replaced each other\'s job) was found by reading, confirmed on the real code, repaired in /repo (fix: commit) and is guarded by the cron-sys domain. The theorem assumes that no storage call fails (a write that fails after its hook has run leaves the job of the rejected record: not exercised, the hooked locations of the harness have no fault injection).',
+        'technique': 'Coq invariant proof (the registry tracks the fact map through every removal of the cascade and of the purge) over instrumented operation histories with restarts + differential replay with a recording cron service',
+        'assumptions': ['sequential histories', 'no storage call fails', 'the cron service accepts every schedule string (the recording Cronner does)'],
         'partial': 'firing of registered jobs by the cron service itself is C16',
     },
 'C14': {
